@@ -66,7 +66,16 @@ import jax.dtypes
 import jax.numpy as jnp
 import jax.tree_util as jtu
 from beartype.vale import Is
-from genjax.core import Pytree, Const, const, distribution, Any, Callable, Annotated
+from genjax.core import (
+    Pytree,
+    Const,
+    const,
+    distribution,
+    tfp_distribution,
+    Any,
+    Callable,
+    Annotated,
+)
 from genjax.pjax import (
     PPPrimitive,
     Environment,
@@ -1507,13 +1516,21 @@ flip_reinforce = distribution(
     flip.logpdf,
 )
 
+# `geometric_reinforce(probs)` takes the success probability, like `flip_reinforce`
+# and like its keyful sampler; `genjax.geometric`'s first positional parameter is
+# the logit, so it cannot be used for the estimator's sampler and density.
+_geometric_probs = tfp_distribution(
+    lambda probs: tfd.Geometric(probs=probs),
+    name="Geometric",
+)
+
 geometric_reinforce = distribution(
     reinforce(
-        geometric.sample,
-        geometric.logpdf,
+        _geometric_probs.sample,
+        _geometric_probs.logpdf,
         _geometric_keyful_sample,
     ),
-    geometric.logpdf,
+    _geometric_probs.logpdf,
 )
 
 normal_reinforce = distribution(
